@@ -111,3 +111,76 @@ def run(ctx, fx, files, rule="R-NARROWCHECK", only=None):
                                       % (fid.rsplit("::", 1)[-1], fn.local_name(src), ts, td, st[3], bad, W[td]), fn.file, st[3])
     ctx.instance(rule + ".casts", n)
     return n
+
+
+# ------------------------------------------------------------------ R-WIDTHCHECK
+def _any_cast_class(fn, s):
+    """locals equal to s up to integer casts of either direction (the check may sit on the wide original)"""
+    cls = {s}
+    changed = True
+    while changed:
+        changed = False
+        for loc, st in fn.iter_locs():
+            if st[0] != "a" or len(st[1]) != 1:
+                continue
+            rv = st[2]
+            o = rv[1] if rv[0] == "use" else (rv[2] if rv[0] == "cast" and rv[1] == "IntToInt" else None)
+            if o is None:
+                continue
+            pl = op_place(o)
+            if not pl or len(pl) != 1:
+                continue
+            a, b = st[1][0], pl[0]
+            if (a in cls) != (b in cls) and len(fn.defs(a)) == 1 and len(fn.defs(b)) <= 1:
+                cls |= {a, b}
+                changed = True
+    return cls
+
+
+def packed_value_checked(ctx, fx, fid, callee_rx, value_name="value", rule="R-WIDTHCHECK"):
+    """every call in `fid` to a fixed-width bit packer (callee matching callee_rx, which masks its `value` parameter to
+    `bit_width` bits) is dominated by a refusing comparison on the value it passes: a number that does not fit the
+    configured width is an error, not a silently shortened entry. Siblings must agree: the delta of a block is checked,
+    so its base has to be as well."""
+    rx = re.compile(callee_rx)
+    fn = Fn(fx.raw(fid))
+    eb = err_blocks(fn)
+    n = 0
+    for b, c in fn.calls():
+        if not rx.search(c["f"]) or not fx.has(c["f"]):
+            continue
+        cf = Fn(fx.raw(c["f"]))
+        idx = [i for i in range(1, cf.nargs + 1) if cf.local_name(i) == value_name]
+        if not idx or idx[0] - 1 >= len(c["a"]):
+            continue
+        vl = op_local(c["a"][idx[0] - 1])
+        if vl is None:
+            continue
+        n += 1
+        ctx.analysed_fns.add(fid)
+        cls = _any_cast_class(fn, vl)
+        guard = None
+        for sb, cst in cmp_switches(fn, cls):
+            succs = fn.succ(sb)
+            if not (any(s in eb for s in succs) and any(s not in eb for s in succs)):
+                continue
+            # `width < 64 && value >= limit`: the comparison sits behind short-circuit tests that do not involve
+            # the value; walk up through single-predecessor switch blocks
+            d, hops = sb, 0
+            while not fn.dominates(d, b) and hops < 8 and len(fn.pred(d)) == 1:
+                d = fn.pred(d)[0]
+                hops += 1
+            if fn.dominates(d, b) and d != b:
+                guard = cst[3]
+        ok = guard is not None
+        ctx.obligation(rule, fid, "value passed to %s is range-checked" % c["f"].rsplit("::", 1)[-1], ok,
+                       sample={"fn": fid, "packer": c["f"], "line": c["ln"], "guard_line": guard,
+                               "value": fn.local_name(sorted(cls)[0])})
+        if not ok:
+            ctx.violation(rule, fid, "unchecked value for %s" % c["f"].rsplit("::", 1)[-1],
+                          "%s packs %s into a fixed number of bits through %s (line %d) without a refusing comparison on it: "
+                          "a value wider than the configured width is masked and reads back as a different number"
+                          % (fid.rsplit("::", 1)[-1], fn.local_name(vl) or "a value", c["f"].rsplit("::", 1)[-1], c["ln"]),
+                          fn.file, c["ln"])
+    ctx.instance(rule + ".sites", n)
+    return n
